@@ -5,7 +5,14 @@ package hcommon
 // replays exactly.
 type RNG struct{ s uint64 }
 
-func NewRNG(seed int64) *RNG { return &RNG{s: uint64(seed)*0x9E3779B97F4A7C15 + 0x1234567} }
+func NewRNG(seed int64) *RNG {
+	// Mix the seed first: with a plain affine start the streams of nearby seeds
+	// are shifted copies of one another.
+	r := &RNG{s: uint64(seed) ^ 0x5DEECE66D}
+	a := r.Uint64()
+	b := r.Uint64()
+	return &RNG{s: a ^ (b << 1) ^ uint64(seed)*0xD6E8FEB86659FD93}
+}
 
 func (r *RNG) Uint64() uint64 {
 	r.s += 0x9E3779B97F4A7C15
